@@ -50,7 +50,7 @@ Qed.
 
 Theorem atom_nd_gen_eq_model : forall w m x z, (length x <= length z)%nat -> atom_nd_gen_R w m x z = atom_nd w m x z.
 Proof.
-  intros. unfold atom_nd_gen_R, atom_nd_gen, atom_nd_l1_body. rops.
+  intros. unfold atom_nd_gen_R, atom_nd_gen. rops.
   rewrite sq_fold, Rplus_0_l by assumption. reflexivity.
 Qed.
 
